@@ -1,6 +1,7 @@
 from cfg.common import FLOAT_ASSUMPTION, NOTE_COMMON
 
 PROP = {
+    'anchors': [('train/train_state.rs', 'set_link_and_offset'), ('train/set_speed_train_sim.rs', 'solve_step'), ('train/speed_limit_train_sim.rs', 'solve_required_pwr'), ('train/speed_limit_train_sim.rs', 'solve_step'), ('train/resistance/method/strap.rs', 'update_res')],
     'blocks': ['train'],
     'proof_modules': ['C12'],
     'namespaces': ['Altrios.Proofs.C12'],
